@@ -156,19 +156,13 @@ func (c *Ctx) errOutcome(fn *ssa.Function, p CPath) int {
 		return 1
 	}
 	// any value tested `!= nil` with the true arm taken
-	for k, b := range p.Blocks {
-		if k+1 >= len(p.Blocks) {
-			break
-		}
-		ifi, isIf := b.Instrs[len(b.Instrs)-1].(*ssa.If)
-		if !isIf {
-			continue
-		}
+	for _, tk := range p.Ifs() {
+		ifi := tk.If
 		op, x, y, neg, isBin := condOf(ifi.Cond)
 		if !isBin {
 			continue
 		}
-		arm := p.Blocks[k+1] == b.Succs[0]
+		arm := tk.Arm
 		if neg {
 			arm = !arm
 		}
@@ -178,7 +172,7 @@ func (c *Ctx) errOutcome(fn *ssa.Function, p CPath) int {
 		} else if isNilConst(x) {
 			e = y
 		}
-		if e != nil && e == v && ((op == token.NEQ && arm) || (op == token.EQL && !arm)) {
+		if e != nil && (e == v || p.Resolve(e) == v) && ((op == token.NEQ && arm) || (op == token.EQL && !arm)) {
 			return 1
 		}
 	}
@@ -349,7 +343,7 @@ func checkC18(c *Ctx, r *Report) {
 						continue
 					}
 					ld, ok := call.Call.Args[0].(*ssa.UnOp)
-					if !ok || !strings.HasSuffix(apOf(ld.X).SelString(), "messageLayer.CompletionCode") {
+					if !ok || !strings.HasSuffix(apOf(ld.X).SelString(), fMsg+".CompletionCode") {
 						labelOK = false
 					}
 				}
